@@ -278,6 +278,11 @@ inline std::string verdict_text(bool ok, bool nontrivial, const std::set<std::st
     o << "M " << msg << '\n';
     return o.str();
 }
+// coverage builds only (tools/coverage.sh): a forked case leaves through _exit, so its counters are written by hand
+extern "C" int __llvm_profile_write_file(void) __attribute__((weak));
+inline void flush_coverage() {
+    if (__llvm_profile_write_file) __llvm_profile_write_file();
+}
 // Ends the current case immediately.  In a forked child the verdict goes to the parent; otherwise
 // (in-process replay) it is printed and the process exits with the verdict as status.
 [[noreturn]] inline void exit_case_now(bool ok, const std::string &msg, const char *extra_tag = nullptr) {
@@ -287,6 +292,7 @@ inline std::string verdict_text(bool ok, bool nontrivial, const std::set<std::st
     if (child_fd() >= 0) {
         std::string s = verdict_text(ok, false, tags, msg);
         (void)!write(child_fd(), s.data(), s.size());
+        flush_coverage();
         _exit(0);
     }
     printf("REPLAY (in-process) %s: %s\n", ok ? "PASS" : "FAIL", msg.c_str());
@@ -331,6 +337,7 @@ inline Verdict run_forked(const Spec &sp, const Case &c, bool replay, const std:
         Verdict v = run_inproc(sp, c, replay);
         std::string s = verdict_text(v.ok, v.nontrivial, v.tags, v.msg);
         (void)!write(fd[1], s.data(), s.size());
+        flush_coverage();
         _exit(0);
     }
     close(fd[1]);
